@@ -627,11 +627,13 @@ func (c *Conn) observeConnClose(ctx context.Context) error {
 
 func (c *Conn) reconnect(ctx context.Context) error {
 	c.wireConnMu.Lock()
-	defer c.wireConnMu.Unlock()
 	if !c.state.CompareAndSwapNot(connStatusClosed, connStatusReconnecting) {
+		c.wireConnMu.Unlock()
 		return errors.ErrConnectionClosed
 	}
 	c.wireConn.Close()
+	// Redialling can take arbitrarily long: do not keep Close waiting for the lock meanwhile.
+	c.wireConnMu.Unlock()
 
 	oc := c.Config
 	if oc.PingTimeout.Seconds() == 0 {
@@ -656,9 +658,13 @@ func (c *Conn) reconnect(ctx context.Context) error {
 	if err := resErr; err != nil {
 		return resErr
 	}
+	c.wireConnMu.Lock()
+	defer c.wireConnMu.Unlock()
 	c.wireConn = res
 	if !c.state.CompareAndSwap(connStatusReconnecting, connStatusConnected) {
-		panic(errors.Errorf("unexpected error: expected reconnecting but %v", c.state.current))
+		// Close was called while redialling: give up the fresh connection.
+		res.Close()
+		return errors.ErrConnectionClosed
 	}
 	return nil
 }
